@@ -28,7 +28,6 @@ import (
 	"strings"
 	"time"
 
-	"github.com/go-jose/go-jose/v4/jwt"
 	"github.com/goccy/go-json"
 	"github.com/rs/zerolog"
 
@@ -251,7 +250,7 @@ func (a *oauth2IntrospectionAuthenticator) serverMetadata(
 }
 
 func (a *oauth2IntrospectionAuthenticator) extractTokenClaims(token string) (map[string]any, error) {
-	jwtToken, err := jwt.ParseSigned(token, supportedAlgorithms())
+	jwtToken, err := parseJWT(token)
 	if err == nil {
 		claims := map[string]any{}
 		if err = jwtToken.UnsafeClaimsWithoutVerification(&claims); err == nil {
